@@ -23,7 +23,7 @@ import (
 func init() {
 	core.Register(&core.Prop{
 		ID: "C16",
-		Rule: "case = one shapefile of 0-60 (300 thorough; 1.2%: 1023..4097) records of one geometry kind (Point, MultiPoint, LineString, MultiLineString of 1-6 parts, Polygon of 1-5 closed, unclosed or unclosed-by-a-hair rings (last vertex one ulp .. 1e-10 relative from the first), *Bounds, nil geometry) with 1-6 attribute columns (int within ten characters, float whose %.10f fits 30 characters, NUL-free string of 0-50 bytes: ASCII, UTF-8, internal blanks, tabs; leading/trailing blanks as their own category) in random column order, written through NewEncoder/Encode with a reflect-built archetype struct (shp tags and bare mixed-case names; 15% of schemas with >= 2 columns have a crossed pair: each field tagged with the other's lower-cased name and the same struct read back, so the tag must win over the name) or NewEncoderFromFields/EncodeFields, and read back through DecodeRow (struct with differently-cased names/tags, the geometry field at a random position; 35% of the files alternate row by row between two record types with different field order through one Decoder) or DecodeRowFields; oracle = the list of records written; " +
+		Rule: "case = one shapefile of 0-60 (300 thorough; 2.5%: 1023..4097) records of one geometry kind (Point, MultiPoint, LineString, MultiLineString of 1-6 parts, Polygon of 1-5 closed, unclosed or unclosed-by-a-hair rings (last vertex one ulp .. 1e-10 relative from the first), *Bounds, nil geometry) with 1-6 attribute columns (int within ten characters, float whose %.10f fits 30 characters, NUL-free string of 0-50 bytes: ASCII, UTF-8, internal blanks, tabs; leading/trailing blanks as their own category) in random column order, written through NewEncoder/Encode with a reflect-built archetype struct (shp tags and bare mixed-case names; 15% of schemas with >= 2 columns have a crossed pair: each field tagged with the other's lower-cased name and the same struct read back, so the tag must win over the name) or NewEncoderFromFields/EncodeFields, and read back through DecodeRow (struct with differently-cased names/tags, the geometry field at a random position; 35% of the files alternate row by row between two record types with different field order through one Decoder) or DecodeRowFields; oracle = the list of records written; " +
 			"an evaluation is one record compared; non-trivial = file with >= 2 records and >= 2 columns; distinct by content hash",
 		Assumptions: []string{"coordinates are finite bit patterns compared bitwise", "documented images: LineString -> one-part MultiLineString, unclosed ring -> closed, *Bounds -> 5-vertex rectangle", "files are written to a per-run scratch directory under /verif/.build and removed"},
 		Phases: []core.Phase{{Name: "files", NumCases: func(t string) int {
@@ -34,8 +34,8 @@ func init() {
 		}}},
 		Run: run,
 		Floors: func(t string) map[string]int64 {
-			return map[string]int64{"api.struct": 100, "api.fields": 100, "kind.Point": 20, "kind.MultiPoint": 20, "kind.LineString": 20, "kind.MultiLineString": 20, "kind.Polygon": 20, "kind.*Bounds": 20,
-				"records.compared": 3000, "string.last_column": 50, "string.with_edge_blanks": 200, "ring.unclosed": 200, "ring.unclosed_by_a_hair": 100, "file.empty": 3, "column.string": 100, "column.int": 100, "column.float": 100, "string.at_field_width": 20, "schema.crossed_tags_and_names": 30, "decode.alternating_record_types": 50, "file.more_than_1000_records": 5}
+			return map[string]int64{"api.struct": 100, "api.fields": 100, "kind.Point": 8, "kind.MultiPoint": 8, "kind.LineString": 8, "kind.MultiLineString": 8, "kind.Polygon": 8, "kind.*Bounds": 8,
+				"records.compared": 3000, "string.last_column": 50, "string.with_edge_blanks": 200, "ring.unclosed": 200, "ring.unclosed_by_a_hair": 100, "file.empty": 3, "column.string": 100, "column.int": 100, "column.float": 100, "string.at_field_width": 20, "schema.crossed_tags_and_names": 20, "decode.alternating_record_types": 30, "file.more_than_1000_records": 1}
 		},
 	})
 }
@@ -340,7 +340,7 @@ func run(c *core.Ctx, idx int) {
 	if r.Chance(0.03) {
 		nrec = 0
 	}
-	if r.Chance(0.012) {
+	if r.Chance(0.025) {
 		// more than a thousand records (counts on both sides of 1024, 2048, 4096)
 		nrec = []int{1023, 1024, 1025, 1500, 2047, 2049, 2500, 4097}[r.Intn(8)]
 		c.Count("file.more_than_1000_records")
